@@ -1,51 +1,59 @@
 (** C02 — longest-prefix match returns the most specific covering entry.
-    This file contains only statements, closed by [exact], and their [Print Assumptions]. *)
+    Statements only; proofs are in Lookup.v. *)
 From Coq Require Import List NArith.
-From PT Require Import Bits PrefixN Laws PrefixLaws Trie TrieWf Lookup Inst.
+From PT Require Import Lookup.
+From PT.Properties Require Import Common.
 Import ListNotations.
 
 Section C02.
 Variables (w : N) (fl : flavour) (V : Type).
 Hypothesis Hw : (1 <= w)%N.
-Notation okp := (fun p : pfx => valid w p = true).
-Notation wf := (wf_root pfx V (pbits w) okp).
-Notation is_lpm := (is_lpm pfx V (pbits w)).
-Notation no_cover := (no_cover pfx V (pbits w)).
+Notation is_lpm := (is_lpm pfx V (kbits w)).
+Notation no_cover := (no_cover pfx V (kbits w)).
 
-(** For every well-formed map state (every reachable state is: C15) and every valid query [q]:
-    [get_lpm] returns a stored entry that covers [q] and whose prefix length is the greatest
-    among all stored entries covering [q]; it returns [None] exactly when no stored entry covers
-    [q].  The statement mentions only the entry list, not the shape. *)
+(** For every well-formed map state — every reachable state is one ([Common.reachable_wfm]) —
+    and every valid query [q]: [get_lpm] returns a stored entry that covers [q] and whose prefix
+    length is the greatest among all stored entries covering [q]; it returns [None] exactly when no
+    stored entry covers [q].  The statement mentions the entry list only, never the shape. *)
 Theorem C02_get_lpm (t : tree pfx V) (q : pfx) :
-  wf t -> valid w q = true ->
+  wfm w V t -> okp w q ->
   match t_get_lpm w fl V t q with
   | Some e => is_lpm (entries t) q e
   | None => no_cover (entries t) q
   end.
 Proof.
   intros Hwf Hq. destruct t as [|i p v l r]; [destruct Hwf|].
-  exact (get_lpm_spec pfx V _ _ _ _ _ _ _ _ _ (pn_laws w fl Hw) [] _ q (proj2 Hwf) Hq
-           (wf_root_covers pfx V (pbits w) okp _ q Hwf)).
+  exact (get_lpm_spec pfx V _ _ _ _ _ _ _ _ _ (laws w fl Hw) [] _ q (proj2 Hwf) Hq
+           (wf_root_covers pfx V (kbits w) (okp w) _ q Hwf)).
 Qed.
 
+(** ... in particular in every state reachable by a history of public mutating calls *)
+Theorem C02_reachable (ops : list (hop V)) (q : pfx) :
+  Forall (hop_ok w V) ops -> okp w q ->
+  match t_get_lpm w fl V (root (hrun w fl V ops)) q with
+  | Some e => is_lpm (entries (root (hrun w fl V ops))) q e
+  | None => no_cover (entries (root (hrun w fl V ops))) q
+  end.
+Proof. intros Hops Hq. apply C02_get_lpm; [apply (reachable_wfm w fl V Hw); exact Hops | exact Hq]. Qed.
+
 (** the answer is determined by the stored entries alone: two well-formed trees with the same
-    entries give the same answer, whatever their shapes *)
+    entries give the same answer, whatever shapes earlier removals left behind *)
 Theorem C02_shape_independent (t1 t2 : tree pfx V) (q : pfx) :
-  wf t1 -> wf t2 -> valid w q = true -> entries t1 = entries t2 ->
+  wfm w V t1 -> wfm w V t2 -> okp w q -> entries t1 = entries t2 ->
   t_get_lpm w fl V t1 q = t_get_lpm w fl V t2 q.
 Proof.
   intros H1 H2 Hq E.
   pose proof (C02_get_lpm t1 q H1 Hq) as A. pose proof (C02_get_lpm t2 q H2 Hq) as B.
   destruct t1 as [|i1 p1 v1 l1 r1]; [destruct H1|]. destruct t2 as [|i2 p2 v2 l2 r2]; [destruct H2|].
   destruct (t_get_lpm w fl V (Node i1 p1 v1 l1 r1) q) as [e1|], (t_get_lpm w fl V (Node i2 p2 v2 l2 r2) q) as [e2|].
-  - f_equal. rewrite E in A.
-    eapply is_lpm_unique; [exact (proj2 H2) | exact A | exact B].
+  - f_equal. rewrite E in A. eapply is_lpm_unique; [exact (proj2 H2) | exact A | exact B].
   - exfalso. destruct A as [Hin [Hc _]]. rewrite E in Hin. exact (B _ Hin Hc).
   - exfalso. destruct B as [Hin [Hc _]]. rewrite <- E in Hin. exact (A _ Hin Hc).
   - reflexivity.
 Qed.
 
-(** [get_lpm_prefix] and [get_lpm_mut] (separate loops in the code) designate the same entry *)
+(** [get_lpm_prefix] and [get_lpm_mut] (separate loops in the code) designate the same entry;
+    the set's [get_lpm] is [get_lpm] of the underlying map projected to the prefix *)
 Theorem C02_get_lpm_prefix (t : tree pfx V) (q : pfx) :
   t_get_lpm_prefix w fl V t q = option_map fst (t_get_lpm w fl V t q).
 Proof. exact (get_lpm_prefix_eq pfx V _ _ _ _ t q). Qed.
@@ -56,7 +64,16 @@ Proof. exact (get_lpm_mut_eq pfx V _ _ _ _ t q). Qed.
 
 End C02.
 
+(** non-vacuity: a well-formed tree with a value-less leftover on the query path *)
+Example C02_example :
+  let m0 := fst (t_insert 8 Generic nat (t_empty nat) (mkpfx 0x80 1) 1%nat) in
+  let m1 := fst (t_insert 8 Generic nat m0 (mkpfx 0xc0 2) 2%nat) in
+  let m := fst (t_remove_keep_tree 8 Generic nat m1 (mkpfx 0xc0 2)) in
+  t_get_lpm 8 Generic nat (root m) (mkpfx 0xc5 8) = Some (mkpfx 0x80 1, 1%nat).
+Proof. vm_compute. reflexivity. Qed.
+
 Print Assumptions C02_get_lpm.
+Print Assumptions C02_reachable.
 Print Assumptions C02_shape_independent.
 Print Assumptions C02_get_lpm_prefix.
 Print Assumptions C02_get_lpm_mut.
